@@ -1488,7 +1488,19 @@ class TeX(object):
                 return dimen(sign * dimen(t))
             self.pushToken(t)
             break
-        num = dimen(sign * self.readDecimal() * self.readUnitOfMeasure(units=units))
+        num = sign * self.readDecimal()
+        unit = self.readUnitOfMeasure(units=units)
+        if abs(unit) >= 2e9:
+            # fil, fill, filll: the multiplier scales the amount, not the
+            # offset (2e9, 4e9, 6e9) that encodes the order of infinity
+            order = abs(unit) - abs(unit.fill)
+            num = num * unit.fill
+            if num < 0:
+                num = dimen(num - order)
+            else:
+                num = dimen(num + order)
+        else:
+            num = dimen(num * unit)
         ParameterCommand.enable()
         return num
 
